@@ -8,7 +8,7 @@ open LolHtml LolHtml.Model
 variable {κ : Type}
 
 section
-variable {env : Env κ} {inpS inpW : Bytes} {δ : Nat} {K : Nat → κ → κ → Prop}
+variable {env : Env κ} {inpS inpW : Bytes} {δ : Nat} {K : Nat → κ → κ → Prop} {Loc : κ → Nat → Prop}
 
 theorem ScanRel.weaken' {np : Nat} {ab ab' : Ab} {ss sw : ScanRegs} (h : ScanRel δ ab np ss sw)
     (hP : ab'.P = true → ab.P = true) (hSt : ab'.St = true → ab.St = true) (hSn : ab'.Sn = true → ab.Sn = true) :
@@ -74,7 +74,7 @@ theorem localName_sh (F : Frame inpS inpW δ) {r : Range} {h : Nat} {n : LocalNa
     rw [if_neg he] at hn
     exact hn
 
-theorem scanEmitHint_sim (F : Frame inpS inpW δ) (hops : OpsSim env.ops inpS inpW δ K) {ab' : Ab}
+theorem scanEmitHint_sim (F : Frame inpS inpW δ) (hops : OpsSim env.ops inpS inpW δ K Loc) {ab' : Ab}
     {cs cw : Common} {ss sw : ScanRegs} {xs xw : Ctx κ} (tsS : Nat) (ie : Bool)
     (hc : CRel δ 0 cs cw) (h1 : 1 ≤ cs.nextPos) (hs : ScanRel δ ab' cs.nextPos ss sw)
     (htns : sw.tagNameStart = ss.tagNameStart + δ) (htsn : ss.tagStart = none)
@@ -123,7 +123,7 @@ theorem scanEmitHint_sim (F : Frame inpS inpW δ) (hops : OpsSim env.ops inpS in
         rw [hnp']
         exact ⟨rfl, { hs with pend := rfl, hash := rfl }, hq1, hq2⟩
 
-theorem scanFinishTagName_sim (F : Frame inpS inpW δ) (hops : OpsSim env.ops inpS inpW δ K) {ab ab' : Ab}
+theorem scanFinishTagName_sim (F : Frame inpS inpW δ) (hops : OpsSim env.ops inpS inpW δ K Loc) {ab ab' : Ab}
     {cs cw : Common} {ss sw : ScanRegs} {xs xw : Ctx κ} (h : ScanPre δ K ab cs cw ss sw xs xw)
     (hP : ab.P = true) (hSn : ab.Sn = true) (hP' : ab'.P = true → ab.P = true) (hSt' : ab'.St = false)
     (hSn' : ab'.Sn = false) :
@@ -181,7 +181,7 @@ theorem scanFinishTagName_sim (F : Frame inpS inpW δ) (hops : OpsSim env.ops in
           ss.isInEndTag h.c (by omega) (hs' id) htns rfl h.seqS h.seqW hx h.pc h.k
 
 /-- **All tag scanner actions.** -/
-theorem scanAct_sim (F : Frame inpS inpW δ) (hops : OpsSim env.ops inpS inpW δ K) (a : ActName)
+theorem scanAct_sim (F : Frame inpS inpW δ) (hops : OpsSim env.ops inpS inpW δ K Loc) (a : ActName)
     {ab ab' : Ab} (habs : absAct a ab = some ab') {cs cw : Common} {ss sw : ScanRegs} {xs xw : Ctx κ}
     (h : ScanPre δ K ab cs cw ss sw xs xw)
     (hin : readsInp a = true → (cs.nextPos ≤ inpS.length ∨ Closed inpS inpW δ)) :
